@@ -304,9 +304,10 @@ func (g *Gateway) errorHandler(w http.ResponseWriter, r *http.Request, e error) 
 		return
 	}
 
-	if errors.Is(e, context.Canceled) ||
-		errors.Is(e, io.EOF) {
-		// this is expected
+	if r.Context().Err() != nil &&
+		(errors.Is(e, context.Canceled) || errors.Is(e, io.EOF)) {
+		// this is expected: the caller went away, there is nobody left to answer.
+		// the same errors coming from the tunnel while the caller is still waiting are forwarding failures
 		return
 	}
 
